@@ -37,6 +37,7 @@ var registry = map[string]*PropDef{
 			// the same kernels with SHA-1 as a free function (20 fresh bytes per application + Ackermann axioms) instead of the pseudo-digest
 			{Pkg: "internal/object", Func: "VP_C01_RoundTrip", Quick: map[string]int{"payload": 4, "shortReads": 1, "freeDigest": 1}, Thorough: map[string]int{"payload": 16, "shortReads": 1, "freeDigest": 1}, Share: 1.00},
 			{Pkg: "internal/object", Func: "VP_C01_Idempotent", Quick: map[string]int{"payload": 2, "freeDigest": 1}, Thorough: map[string]int{"payload": 3, "freeDigest": 1}, Share: 1.00},
+			{Pkg: "internal/object", Func: "VP_C01_Blocks", Quick: map[string]int{"maxBackEdges": 400000}, Thorough: map[string]int{"maxBackEdges": 400000}, Share: 1.00},
 			{Pkg: "cmd", Func: "VP_C01_Cli", Quick: map[string]int{"payload": 3}, Thorough: map[string]int{"payload": 10}, Share: 1.00},
 		},
 		QuickBudget: 10 * time.Minute, ThoroughBudget: 45 * time.Minute, Assumptions: commonAssumptions,
@@ -139,13 +140,14 @@ var registry = map[string]*PropDef{
 	"C11": {
 		Harnesses: []HarnessDef{
 			{Pkg: "internal/store", Func: "VP_C11_RoundTrip", Quick: map[string]int{"records": 1, "msglen": 3, "namelen": 2}, Thorough: map[string]int{"records": 2, "msglen": 3, "namelen": 3}, Share: 1.00},
-			{Pkg: "cmd", Func: "VP_C11_Cli", Quick: map[string]int{"msglen": 2}, Thorough: map[string]int{"msglen": 5}, Share: 1.00},
+			{Pkg: "cmd", Func: "VP_C11_Cli", Quick: map[string]int{"msglen": 2, "maxBackEdges": 200000}, Thorough: map[string]int{"msglen": 5, "longline": 14000, "maxBackEdges": 3000000}, Share: 1.00},
 		},
 		QuickBudget: 10 * time.Minute, ThoroughBudget: 45 * time.Minute, Assumptions: commonAssumptions,
 	},
 	"C12": {
 		Harnesses: []HarnessDef{
 			{Pkg: "internal/object", Func: "VP_C12_Sign", Quick: map[string]int{"namelen": 2, "unixdigits": 10}, Thorough: map[string]int{"namelen": 5, "unixdigits": 10}, Share: 1.00},
+			{Pkg: "cmd", Func: "VP_C14_Fields", Quick: map[string]int{"biglen": 100000, "msglen": 1, "maxBackEdges": 3000000}, Thorough: map[string]int{"biglen": 131000, "msglen": 2, "maxBackEdges": 4000000}, Share: 1.00},
 			{Pkg: "cmd", Func: "VP_C12_Cli", Quick: map[string]int{"msglen": 1}, Thorough: map[string]int{"msglen": 5}, Share: 1.00},
 		},
 		QuickBudget: 10 * time.Minute, ThoroughBudget: 45 * time.Minute, Assumptions: commonAssumptions,
@@ -162,7 +164,7 @@ var registry = map[string]*PropDef{
 	"C14": {
 		Harnesses: []HarnessDef{
 			{Pkg: "cmd", Func: "VP_C14_Walk", Quick: map[string]int{"chain": 20}, Thorough: map[string]int{"chain": 200}, Share: 1.00},
-			{Pkg: "cmd", Func: "VP_C14_Fields", Quick: map[string]int{"biglen": 4200, "msglen": 1, "maxBackEdges": 200000}, Thorough: map[string]int{"biglen": 70000, "msglen": 2, "maxBackEdges": 2000000}, Share: 1.00},
+			{Pkg: "cmd", Func: "VP_C14_Fields", Quick: map[string]int{"biglen": 100000, "msglen": 1, "maxBackEdges": 3000000}, Thorough: map[string]int{"biglen": 131000, "msglen": 2, "maxBackEdges": 4000000}, Share: 1.00},
 			{Pkg: "cmd", Func: "VP_C14_Log", Quick: map[string]int{"commits": 4}, Thorough: map[string]int{"commits": 9}, Share: 1.00},
 		},
 		QuickBudget: 10 * time.Minute, ThoroughBudget: 45 * time.Minute, Assumptions: commonAssumptions,
@@ -184,6 +186,7 @@ var registry = map[string]*PropDef{
 			{Pkg: "cmd", Func: "VP_C17_Add", Quick: map[string]int{"complen": 1}, Thorough: map[string]int{"complen": 1}, Share: 1.00},
 			{Pkg: "cmd", Func: "VP_C17_Add", ThoroughOnly: true, Thorough: map[string]int{"complen": 2, "neighbour": 0}, Share: 1.00},
 			{Pkg: "cmd", Func: "VP_C17_DottedExt", Quick: map[string]int{}, Thorough: map[string]int{}, Share: 1.00},
+			{Pkg: "cmd", Func: "VP_C17_LateIgnore", Quick: map[string]int{}, Thorough: map[string]int{}, Share: 1.00},
 			{Pkg: "cmd", Func: "VP_C17_Forms", Quick: map[string]int{"complen": 1}, Thorough: map[string]int{"complen": 2}, Share: 1.00},
 			{Pkg: "cmd", Func: "VP_C17_Semantics", Quick: map[string]int{}, Thorough: map[string]int{}, Share: 1.00},
 		},
@@ -211,6 +214,7 @@ var registry = map[string]*PropDef{
 			{Pkg: "internal/store", Func: "VP_C19_RefsLoad", Quick: map[string]int{"n": 5}, Thorough: map[string]int{"n": 10}, Share: 1.00},
 			{Pkg: "internal/store", Func: "VP_C19_MutatedFiles", Quick: map[string]int{}, Thorough: map[string]int{}, Share: 1.00},
 			{Pkg: "internal/object", Func: "VP_C19_MutatedObjects", Quick: map[string]int{}, Thorough: map[string]int{}, Share: 1.00},
+			{Pkg: "internal/object", Func: "VP_C19_LongCommit", Quick: map[string]int{"maxBackEdges": 3000000}, Thorough: map[string]int{"maxBackEdges": 3000000}, Share: 1.00},
 			{Pkg: "cmd", Func: "VP_C19_BranchFileCli", Quick: map[string]int{"stray": 1}, Thorough: map[string]int{"stray": 2}, Share: 1.00},
 			{Pkg: "internal/store", Func: "VP_C19_ReflogLoad", Quick: map[string]int{"n": 5}, Thorough: map[string]int{"n": 9}, Share: 1.00},
 		},
